@@ -65,7 +65,8 @@ def gen_cases(ctx):
         w0max = rng.uniform(1e14, 5e15)
         mode = i % 8
         # mode 6: omega_0*dt just above 2 on a forced pole (must be rejected); mode 7: just below 2 (must be accepted)
-        x = rng.uniform(2.0, 2.45) if mode == 6 else rng.uniform(1.9, 1.999) if mode == 7 else rng.uniform(0.01, 1.9)
+        # mode 5: slow resonances relative to the time step (far-IR / THz phonons: omega_0*dt of order 1e-4 .. 1e-3)
+        x = rng.uniform(2.0, 2.45) if mode == 6 else rng.uniform(1.9, 1.999) if mode == 7 else rng.uniform(2e-4, 9e-4) if mode == 5 else rng.uniform(0.01, 1.9)
         dt = x / w0max
         oriented = i % 4 == 3
         n = rng.randint(1, 3)
@@ -83,7 +84,7 @@ def gen_cases(ctx):
         if mode in (6, 7):   # one scalar pole resonating exactly at w0max
             poles[0] = rng.choice([{"kind": "lorentz", "w0": H(w0max), "g": H(rng.choice([0.0, 0.1 * w0max])), "de": H(rng.uniform(0.1, 5.0))},
                                    {"kind": "cp", "amp": H(1.5), "phase": H(0.3), "om": H(w0max * 0.999), "gm": H(0.04 * w0max)}])
-        omegas = [H(0.02 / dt), H(0.01 / dt), H(rng.uniform(0.05, 1.5) * w0max)]
+        omegas = [H(0.02 / dt), H(0.01 / dt), H(rng.uniform(0.05, 1.5) * w0max)] if mode != 5 else [H(0.2 * w0max), H(0.7 * w0max), H(rng.uniform(0.05, 1.5) * w0max)]
         cases.append({"poles": poles, "dt": H(dt), "omegas": omegas, "extra_pad": rng.randint(0, 2), "x": x})
     return cases
 
